@@ -193,7 +193,7 @@ func emitOpen(c *driverCtx, prop string, rf readerFile) string {
 // reader kinds: what is handed to ReadFile (any io.Reader + io.ByteReader) and, after a "+", what the callback does
 // with the banks it is given: nothing until the end (default), close every bank as soon as the record has been looked
 // at ("+close"), or close every other one at once and keep the rest ("+closesome")
-var readerKinds = []string{"bytes", "bufio", "onebyte", "chunk", "buffer", "strings", "bytes+close", "bufio+closesome", "buffer+closesome", "chunk+close", "strings+closesome"}
+var readerKinds = []string{"bytes", "bufio", "onebyte", "chunk", "buffer", "strings", "bytes+close", "bufio+closesome", "buffer+closesome", "chunk+close", "strings+closesome", "bytes+nested", "bufio+nested"}
 
 func driveC08(c *driverCtx) error {
 	typ := reflect.TypeFor[RRec]()
